@@ -1,6 +1,6 @@
 """Property-specific side harnesses called by bin/checklib (see props.py, key 'extra').
 Each returns a list of (replay path, suffix) violations and may add keys to the coverage dict."""
-import os, subprocess, json, re, glob
+import os, subprocess, json, re, glob, time
 import checklib as L
 
 
@@ -484,15 +484,37 @@ def conc_explore(prop, tier, seed, cov, log):
     chunks = 8 if tier == 'quick' else 16
     per = max(1, blocks // chunks)
     corpus = sorted(glob.glob(f'{L.V}/corpus/conc/*.hist'))
+    import hashlib
+    def fsig(path):
+        h = hashlib.sha1()
+        with open(path, 'rb') as fh:
+            for blk in iter(lambda: fh.read(1 << 20), b''): h.update(blk)
+        return h.hexdigest()
+    binsig = fsig(f'{L.BIN}/drive') + fsig(L.DRIVER) + ''.join(fsig(c) for c in corpus)
+    # old entries go when the executables change
+    for old in glob.glob(f'{L.CACHE}/conc/*'):
+        if time.time() - os.path.getmtime(old) > 6 * 3600:
+            try: os.remove(old)
+            except OSError: pass
     def run(i):
         if i < 0:   # a corpus history: its concurrent block under every interleaving within the bound
             cmd = [f'{L.BIN}/drive', 'explore', '-in', corpus[-i - 1], '-max', '1500' if tier == 'quick' else '20000']
         else:
             cmd = [f'{L.BIN}/drive', 'conc', '-seed', str(seed * 1000 + i), '-n', str(per), '-steps', '30']
+        # the exploration is the same for every property that asks for it: its traces and verdicts are kept, keyed by the
+        # two executables that produce them (both rebuilt from the current trees) and the arguments
+        key = hashlib.sha1((binsig + ' '.join(cmd[1:])).encode()).hexdigest()[:24]
+        cdir = f'{L.CACHE}/conc'
+        os.makedirs(cdir, exist_ok=True)
+        tf, of = f'{cdir}/{key}.trace', f'{cdir}/{key}.out'
+        if os.path.exists(tf) and os.path.exists(of):
+            return i, open(tf).read(), open(of).read(), None
         r = subprocess.run(cmd, capture_output=True, text=True, env=L.GOENV, timeout=3000)
         if r.returncode != 0:
             return i, None, None, r.stderr[-2000:]
         d = subprocess.run([L.DRIVER], input=r.stdout, capture_output=True, text=True)
+        open(tf + '.tmp', 'w').write(r.stdout); os.replace(tf + '.tmp', tf)
+        open(of + '.tmp', 'w').write(d.stdout); os.replace(of + '.tmp', of)
         return i, r.stdout, d.stdout, None
     viol = []; seen = set(); known = L.load_known(prop)
     tot = {'explored': 0, 'distinct': 0, 'deadlocks': 0}; hist = 0; unser = 0; agree = 0; regchk = [0]
